@@ -321,6 +321,10 @@ pub struct FsFaultSpec {
     pub open_write_errno: Option<i32>,
     pub mkdir_errno: Option<i32>,
     pub enospc_after_bytes: Option<u64>,
+    /// Disk full this many bytes before the end of everything the run would write: the harness first
+    /// executes the run on a copy of the world to learn the total, then for real with the limit set.
+    #[serde(default)]
+    pub enospc_before_end: Option<u64>,
     pub rename_errno: Option<i32>,
     pub fsync_errno: Option<i32>,
     #[serde(default)]
